@@ -326,7 +326,10 @@ def shaped():
         b = SP(one=SL(1), items=(SL(2),))
         return SP(one=b, items=(a, SP(items=(SL(1),))))
 
-    return [("shared-object", shared), ("in-tree-twins-wrong-order", wrong_order_twins), ("twin-subtrees", twin_subtrees)]
+    def wide():
+        return SP(one=SL(0), items=tuple(SL(i % 5) for i in range(12)))     # 12 elements, twins among them (two-digit suffixes)
+
+    return [("shared-object", shared), ("in-tree-twins-wrong-order", wrong_order_twins), ("twin-subtrees", twin_subtrees), ("wide-tuple", wide)]
 
 
 def plan(tier, seed):
@@ -350,7 +353,7 @@ def cases(cfg):
         probe = b()
         npos = len(walk(probe))
         del probe
-        holds = [[]] + [[k] for k in range(npos)] + [[1, 2], [2, 3]]
+        holds = [[]] + [[k] for k in range(min(npos, 6))] + [[1, 2], [2, 3]] + ([[npos - 1], [npos - 2, npos - 1]] if npos > 6 else [])
         yield {"family": "shaped", "shape": name}, b, holds, ["none", "twin-alive", "twin-dropped"]
 
 
